@@ -298,10 +298,10 @@ def directed_cases(ck):
     # C12-N13 (e6f83f8): a row of a relation literal that is not a tuple
     for src in ("from [{a = 1}, 2]", "from [{a = 1}, \"x\"]", "from [{a = 1}, [2]]"):
         add("fixed:N13", "compile", src, target="sql.generic")
-    # C12-N14 (open): a lambda without parameters around a transform
+    # C12-N14 (9639161): a lambda around a partially applied built-in
     for src in ("from t | -> take 5", "from t | (-> derive {x = 1})", "from t | func -> append u", "let f = x -> take x\nfrom t | f 5",
                 "let f = x -> in x\nfrom t | filter (a | f 1..2)"):
-        add("N14:lambda", "compile", src, target="sql.generic")
+        add("fixed:N14", "compile", src, target="sql.generic")
     # F29 (456bdcd), lowering / from_text panics (7911778, 287b286, 8204886): the programs are in c12_streams.EXTRA_PROGRAMS
     # C12-N5 (222f71a): i64::MIN under a negation -- PL from JSON (constant folding) ...
     w5 = harness("pl", [{"src": "from t | window rows:-1..1 (derive {s = sum b})"}])[0]
@@ -325,6 +325,10 @@ def directed_cases(ck):
                 w["frame"]["range"]["start"] = None if s is None else {"kind": {"Literal": {"Integer": s}}, "span": None}
                 w["frame"]["range"]["end"] = None if e is None else {"kind": {"Literal": {"Integer": e}}, "span": None}
             add("fixed:N5:rq", "json_rq", json.dumps(d), target="sql.generic", prog="from t | window rows:-1..1 (derive {s = sum b})")
+    # d8fda67: a non-finite number literal behind multi-byte text (the slices source[..span] of non_finite_literals)
+    for src in ("from \u00e9 | derive x = 1e400", "let \u20ac = 1e999\nfrom t", "from t | derive {s = '\U0001F600', x = -1e400, y = 1e-400}"):
+        for e in ("tokens", "compile"):
+            add("directed:non-finite", e, src, **({"target": "sql.generic"} if e == "compile" else {}))
     # C12-N18 (open): an Aggregate partitioned by its own aggregated columns
     a5 = harness("rq", [{"src": "from t | aggregate {n = count this, c = count_distinct a}"}])[0]
     if "ok" in a5:
@@ -483,10 +487,6 @@ def closure_correspondence(ck, ginfo):
             m = "BadCast"
         else:
             m = "Val" if mv[1] == "Val" else "Fn"
-        if m == got == "BadCast":
-            # the model predicts this panic: an instance of the open finding C12-N14 (classified by the model, not by a regex)
-            ck.disagreement("panic `bad special function cast` predicted by Model/Closure.v on `%s`" % p[0],
-                            {"src": p[0], "entry": "rq", "model": str(mv)[:200], "kind": "model-predicted-panic"}, lambda _c: "C12-N14-parameterless-lambda-transform")
         if m != got:
             ck.violation("Model/Closure.v fold differs from the resolver on `%s`: model %s, impl %s" % (p[0], m, got),
                          {"src": p[0], "entry": "rq", "model": str(mv)[:300], "impl": got, "term": p[1], "kind": "correspondence"})
